@@ -1,7 +1,7 @@
 """C11 - an operation that raises leaves the database as it was, and still usable (DESIGN 4, C11)."""
 
 from .. import observers, qast, world as W
-from .base import E1Check, viol
+from .base import E1Check, viol, closure_configs
 from .c01 import std_ops
 
 
@@ -63,6 +63,11 @@ class C11(E1Check):
 
     def bounds(self):
         return {"N": 3, "D": 4} if self.tier == "quick" else {"N": 4, "D": 5, "max_states": 40000}
+
+    def configs(self):
+        # the depth-bounded runs plus runs to the fixpoint within 2 stored points (histories of any length)
+        extra = [] if self.tier == "quick" else closure_configs(("mem",))
+        return super().configs() + extra
 
     def budget(self):
         return 600 if self.tier == "quick" else 3 * 3600
